@@ -22,12 +22,36 @@ pub struct Unit {
     /// first `+ext` wherever it stands (also right of `--`), the positionals see the rest
     #[serde(default)]
     pub literal: bool,
+    /// 1: every positional carries a help text attached after its strictness annotation;
+    /// 2: non-strict positionals are hidden (`.non_strict().hide()`): neither changes parsing
+    #[serde(default)]
+    pub decor: u8,
 }
 
 const LIT: &str = "+ext";
 
 fn unit_opts(u: &Unit) -> Opts {
     let mut o = u.level.to_opts();
+    fn deco(p: &mut P, decor: u8) {
+        match p {
+            P::Pos { metavar, help, strict, .. } => {
+                if decor == 1 {
+                    *metavar = "POS_".into();
+                    *help = Some(DocSpec::plain("positional help"));
+                } else if decor == 2 && *strict == Strict::NonStrict {
+                    let me = p.clone();
+                    *p = P::Hide(me.bx());
+                }
+            }
+            P::Cmd { inner, .. } => deco(&mut inner.p, decor),
+            P::Seq(v) | P::Alt(v) | P::Choice(v) | P::Adj(v) => v.iter_mut().for_each(|x| deco(x, decor)),
+            P::Optional(x, _) | P::Many(x, _) | P::Some_(x, _) | P::Fallback(x, _, _) => deco(x, decor),
+            _ => {}
+        }
+    }
+    if u.decor != 0 {
+        deco(&mut o.p, u.decor);
+    }
     if u.literal {
         if let P::Seq(v) = &mut o.p {
             v.insert(0, P::LiteralAnywhere(LIT.into()).opt());
@@ -211,14 +235,20 @@ impl Check for C09 {
             let k = t.len();
             let len = tier.pick(if k >= 3 { 4 } else { 5 }, 6);
             // beside nothing / a switch / an argument
-            out.push(Unit { level: fam::leaf(vec![], tail.clone()), len: len + tier.pick(1, 1), literal: false });
+            out.push(Unit { level: fam::leaf(vec![], tail.clone()), len: len + tier.pick(1, 1), literal: false, decor: 0 });
+            // decorations that must not change parsing: help attached after the strictness
+            // annotation, hidden non-strict positionals
+            out.push(Unit { level: fam::leaf(vec![], tail.clone()), len, literal: false, decor: 1 });
+            if t.iter().any(|p| p.strict == Strict::NonStrict) {
+                out.push(Unit { level: fam::leaf(vec![], tail.clone()), len, literal: false, decor: 2 });
+            }
             // beside an item that may be taken from anywhere, also from the right of `--`
-            out.push(Unit { level: fam::leaf(vec![], tail.clone()), len, literal: true });
-            out.push(Unit { level: fam::leaf(vec![fam::named(0, Kind::Switch, 1, seed)], tail.clone()), len, literal: false });
-            out.push(Unit { level: fam::leaf(vec![fam::named(1, Kind::ArgOpt, 0, seed)], tail.clone()), len, literal: false });
+            out.push(Unit { level: fam::leaf(vec![], tail.clone()), len, literal: true, decor: 0 });
+            out.push(Unit { level: fam::leaf(vec![fam::named(0, Kind::Switch, 1, seed)], tail.clone()), len, literal: false, decor: 0 });
+            out.push(Unit { level: fam::leaf(vec![fam::named(1, Kind::ArgOpt, 0, seed)], tail.clone()), len, literal: false, decor: 0 });
             // below a sub-command
             let sub = fam::leaf(vec![], tail.clone());
-            out.push(Unit { level: fam::leaf(vec![fam::named(0, Kind::Switch, 1, seed)], Tail::Cmds { cmds: vec![CmdDef { name: "cmd".into(), shorts: vec![], longs: vec![], level: sub }], wrap: CmdWrap::Required }), len, literal: false });
+            out.push(Unit { level: fam::leaf(vec![fam::named(0, Kind::Switch, 1, seed)], Tail::Cmds { cmds: vec![CmdDef { name: "cmd".into(), shorts: vec![], longs: vec![], level: sub }], wrap: CmdWrap::Required }), len, literal: false, decor: 0 });
         }
         out.into_iter().map(|u| serde_json::to_value(u).unwrap()).collect()
     }
@@ -272,7 +302,7 @@ impl Check for C09 {
         }
     }
     fn rule(&self) -> String {
-        "definitions = every unambiguous positional suffix of 0..3 items (required* then required|optional|many|some; plus non_strict variadic followed by strict items) with every strictness assignment {unrestricted, strict, non_strict}, beside nothing / a switch / an optional argument / below a sub-command / an optional literal +ext declared anywhere() (taken from either side of `--` before the positionals look); every vector of the token tree over {v, w, -, --, --help, -z, --bpaf-complete-rev=8 (the parser's own reserved option: judged right of `--` only, where it is data), declared names, --name, --name=--, command name}; judged by the reference scanner: first `--` splits, is never delivered, right side is verbatim positional data (so `-- --help` is data), left words go to unrestricted/non_strict positionals and right words to unrestricted/strict ones in order; `--name --` fails, `--name=--` delivers `--`; plus, in completion mode (revision 0), every vector with the separator left of the word being typed: no option or command name among the candidates; state = (definition, vector)".into()
+        "definitions = every unambiguous positional suffix of 0..3 items (required* then required|optional|many|some; plus non_strict variadic followed by strict items) with every strictness assignment {unrestricted, strict, non_strict}, beside nothing / a switch / an optional argument / below a sub-command / positionals with help attached after the strictness annotation, hidden non-strict positionals, an optional literal +ext declared anywhere() (taken from either side of `--` before the positionals look); every vector of the token tree over {v, w, -, --, --help, -z, --bpaf-complete-rev=8 (the parser's own reserved option: judged right of `--` only, where it is data), declared names, --name, --name=--, command name}; judged by the reference scanner: first `--` splits, is never delivered, right side is verbatim positional data (so `-- --help` is data), left words go to unrestricted/non_strict positionals and right words to unrestricted/strict ones in order; `--name --` fails, `--name=--` delivers `--`; plus, in completion mode (revision 0), every vector with the separator left of the word being typed: no option or command name among the candidates; state = (definition, vector)".into()
     }
     fn bounds(&self, tier: Tier) -> Value {
         json!({"positionals": "0..3", "vector_length": tier.pick("5 (4 with three positionals; +1 for positional-only levels)", "6 (7 for positional-only levels)")})
